@@ -47,3 +47,24 @@ pub fn registry() -> Vec<Property> {
         Property { id: "C16", run: c16::run, subs: c16::subs },
     ]
 }
+
+/// Targets of the coverage-guided tier per property: in-process, deterministic sub-checks only (the system checks spawn
+/// processes the fuzzer cannot see into). `runs` = libFuzzer executions in the thorough tier.
+pub fn fuzz_plans(id: &str) -> Vec<crate::fz::Plan> {
+    use crate::fz::Plan;
+    let p = |sub: &'static str, runs: u64| Plan { sub, runs };
+    match id {
+        "C02" => vec![p("dgram-cuts", 200_000)],
+        "C03" => vec![p("tcp-impl-to-ref", 200_000), p("tcp-ref-to-impl", 200_000), p("udp-ss", 200_000), p("udp-in-stream", 200_000)],
+        "C04" => vec![p("seg-cuts", 200_000), p("dgram-cuts", 200_000)],
+        "C05" => vec![p("stream-tamper", 200_000), p("reflect-splice", 200_000), p("dgram-tamper", 300_000)],
+        "C06" => vec![p("no-credential", 400_000), p("user-separation", 200_000), p("raw", 1_000_000)],
+        "C07" => vec![p("raw-bytes", 600_000), p("sealed-malformed", 600_000), p("http-target-strings", 300_000), p("raw", 3_000_000)],
+        "C10" => vec![p("handshake-fields", 300_000), p("replay-history", 200_000)],
+        "C11" => vec![p("filter-model", 400_000), p("client-reply-sessions", 200_000)],
+        "C12" => vec![p("tcp-history", 100_000), p("udp-history", 100_000)],
+        "C13" => vec![p("http-target", 600_000)],
+        "C14" => vec![p("codec-roundtrip", 400_000), p("accepted-address-transmission", 300_000)],
+        _ => vec![],
+    }
+}
